@@ -2,32 +2,62 @@
 {'harness': 'c08',
  'props': 'Props/C08.v',
  'models': ['Model/Json.v', 'Model/Xml.v'],
- 'trusted': ['encoding/json Decoder.Token and encoding/xml Decoder.Token/RawToken are modelled as the token '
-             'stream determined by the document (jtokens / xtokens, incl. the namespace translation of '
-             'encoding/xml); the harness reads the same text with its own decoder and the model is compared '
-             'against that stream on every case (CharsetReader = x/net charset.NewReaderLabel, the documented '
-             'charset handling; documents with a declared non-UTF-8 encoding are generated as bytes)',
-             "strconv.FormatFloat(v,'f',-1,64) / ParseFloat enter the theorems as Section variables; the "
+ 'trusted': ['PROVED over the model (Props/C08.v, 18 theorems, no axioms): reader builds jtree for every '
+             'value; converter = jfold on every value (repeated keys folded), = identity for distinct keys '
+             '(round trip, copy); null/[]/{}/""/booleans unconditionally; XML: token view of the tree = '
+             'tokens consumed for EVERY token list; per-token theorems (CharData incl. empty -> one text '
+             'node, consecutive CharData stay separate, comments/PIs/directives ignored, EndElement creates '
+             'no node, StartElement -> one AttributeNode per attribute in order with one text child); tree = '
+             'reference DOM under ns_wf and lastwins_ok (and under uri_single_prefix); F11 refuted outside; '
+             'interleaved readers and document sequences are independent in the model',
+             'EXTRACTED from /repo on every run (coq/Gen/C08Facts.v by harness/cmd/extract/gen_c08.go; '
+             'c08_extracted_facts ties them to the model): JSONType flag values (idr/jsonnode.go), '
+             "addTextChild table incl. FormatFloat(v,'f',-1,64) and ParseFloat(_,64) (idr/jsonreader.go, "
+             'idr/marshal2.go), JSON root node, the xml.Decoder construction and every setting changed on it '
+             '(CharsetReader = x/net/html/charset.NewReaderLabel, nothing else) and the initial space2prefix '
+             'table (idr/xmlreader.go)',
+             'COMPARED ONLY (model vs implementation on every case, and Go-side oracles): encoding/json '
+             'Decoder.Token and encoding/xml Decoder.Token/RawToken are modelled as the token stream '
+             'determined by the document (jtokens / xtokens incl. the namespace translation of '
+             'encoding/xml); the harness reads the same bytes with its own decoder (CharsetReader = '
+             'charset.NewReaderLabel; declared non-UTF-8 encodings generated as bytes)',
+             'COMPARED ONLY: strconv.FormatFloat / ParseFloat enter the theorems as Section variables; the '
              'harness supplies them as a table computed with strconv and asserts the round trip on every '
-             'number',
-             'state shared between conversions/readers is checked on the Go side only: every case converts a '
-             'probe document first and changes the results, then converts its own tree, changes the results, '
-             'converts again (fresh values); copy results handed to a mutating javascript custom_func, record '
-             'after record; pairs/triples of XML readers interleaved on one goroutine must return what each '
-             'returns alone (xml_readers_independent is the model side)',
-             'documents after a FAILED document (good, good2, bad, good, good2 with the ingester\'s Read/Release '
-             'protocol, targets . / /* /*/*, JSON and XML) must give the records they gave before it; the run '
-             'ends at the first such failure because the process-wide node pool is then damaged',
+             'number (boundary literals every run)',
+             'GO-SIDE ORACLES ONLY (state shared between conversions/readers, sizes the Coq cases cannot '
+             'carry): freshness of returned values (probe, mutate, reconvert), copy handed to a mutating '
+             'javascript record after record, interleaved XML readers vs solo runs, good,bad,good document '
+             'sequences with the Read/Release protocol (node pool - C12), records with 12k-26k leaves, bytes '
+             'of Transform.Read valid JSON',
              'the partially built idr.Node tree is modelled as the stack of open nodes (append-only '
              'construction; justified by the C12 refinement to the abstract tree)'],
- 'assumptions': ['jwf: object keys pairwise distinct at every level (duplicate keys are folded into an array '
-                 'by the converter; encoding/json keeps the last)',
+ 'assumptions': ['jwf (json_roundtrip / copy_roundtrip only): object keys pairwise distinct at every level; '
+                 'WITHOUT it json_convert_fold gives the exact result (jfold: repeated names folded into an '
+                 'array; encoding/json keeps the last)',
                  "float_roundtrip: strconv.ParseFloat(strconv.FormatFloat(v,'f',-1,64)) = v for the numbers "
-                 'of the value (asserted by the harness on every number)',
+                 'of the value (asserted by the harness on every number; the call shapes are extracted)',
                  'ns_wf (xml_prefix_in_scope only): Namespaces-in-XML well-formedness of the names used '
                  '(prefixes bound in scope to non-empty URIs, xmlns/xml not redeclared, no URI literally '
                  '"xmlns", no prefixed attribute / unprefixed element named "xmlns")',
-                 'lastwins_ok (xml_prefix_in_scope only): at every element / prefixed attribute the '
-                 "reader's document-wide last-declaration-wins URI->prefix map holds the prefix written "
-                 'there (decidable on the document; its complement is the known class F11, '
-                 'xml_prefix_refuted); xml_prefix_in_scope_single states the same under uri_single_prefix']}
+                 "lastwins_ok (xml_prefix_in_scope only): at every element / prefixed attribute the reader's "
+                 'document-wide last-declaration-wins URI->prefix map holds the prefix written there '
+                 '(decidable on the document; its complement is the known class F11, xml_prefix_refuted); '
+                 'xml_prefix_in_scope_single states the same under uri_single_prefix',
+                 'xml_docs_independent / xml_readers_independent: the node pool hands out nodes '
+                 'indistinguishable from new ones (C12); checked on the implementation by the sequence and '
+                 'interleaving oracles'],
+ 'level_text': 'Coq theorems over the transcribed JSON and XML stream readers (stack machines over the '
+               'decoder token streams) and the node-to-value converter of marshal2.go: tree construction and '
+               'round trip for every JSON value (induction over values; repeated keys characterised exactly '
+               'by jfold), faithfulness of the XML tree to every token list (machine invariant) with '
+               'per-token theorems, and equality with the reference DOM for every document inside ns_wf and '
+               'lastwins_ok (invariant over the threaded namespace map); constants, the value-token table '
+               'and the xml.Decoder settings are extracted from the source on every run; tied to the code by '
+               'a correspondence check that runs model and implementation on generated documents inside Coq, '
+               'plus Go-side oracles for process-wide state.',
+ 'level_note': 'Trusted: Coq kernel/vm_compute, the Go harness and extractor, encoding/json / encoding/xml / '
+               'strconv / x/net charset as the reference decoders; strconv enters as Section variables; no '
+               'axioms (Print Assumptions: closed). Known finding F11 outside lastwins_ok.',
+ 'technique': 'machine-checked proof in Coq 8.16 (structural induction, machine invariants, refinement to a '
+              'reference DOM) + model/implementation correspondence + extracted constants and tables + '
+              'Go-side sequence/interleaving oracles'}
